@@ -22,6 +22,7 @@ var (
 	errInvalidAndroidKey    = errors.New("invalid android key")
 	errInvalidAppleNonce    = errors.New("invalid apple nonce")
 	errMissingAAGUID        = errors.New("missing AAGUID")
+	errInvalidAAGUID        = errors.New("invalid AAGUID")
 	errMissingAndroidKey    = errors.New("missing android key")
 	errMissingAppleNonce    = errors.New("missing apple nonce")
 	errAAGUIDMarkedCritical = errors.New("AAGUID marked critical")
@@ -51,11 +52,14 @@ func getCertificateAAGUID(certificate *x509.Certificate) (AAGUID, error) {
 				return AAGUID{}, errAAGUIDMarkedCritical
 			}
 
-			var aaguid AAGUID
-			_, err := asn1.Unmarshal(extension.Value, &aaguid)
-			if err != nil {
-				return aaguid, nil
+			var raw []byte
+			rest, err := asn1.Unmarshal(extension.Value, &raw)
+			if err != nil || len(rest) != 0 || len(raw) != AAGUIDSize {
+				return AAGUID{}, errInvalidAAGUID
 			}
+			var aaguid AAGUID
+			copy(aaguid[:], raw)
+			return aaguid, nil
 		}
 	}
 	return AAGUID{}, errMissingAAGUID
